@@ -412,7 +412,8 @@ def c06_sched():
             tl = lambda s: '<<' + ', '.join(str(x) for x in s) + '>>'
             open(os.path.join(sdir, 'MC_Sched_%d.tla' % i), 'w').write(
                 '---- MODULE MC_Sched_%d ----\nEXTENDS Sched\nSeqsDef == <<%s>>\n====\n' % (i, ', '.join(tl(s) for s in pr['seqs'])))
-            exhaustive = tier == 'thorough' and sum(len(s) for s in pr['seqs']) <= 14
+            total = sum(len(s) for s in pr['seqs'])
+            exhaustive = total <= 12 or (tier == 'thorough' and total <= 16)   # all release schedules when there are few enough
             st = dict(module='MC_Sched_%d' % i, label='sched-pair%d' % i, props='C06', constants={'Seqs': '<-SeqsDef', 'PairId': i},
                       invariants=['MutualExclusion', 'PendingHasHolder', 'NoDeadlock', 'Emit'])
             ts, summ = vlib.run_gen(sdir, harness, st['module'], st['constants'], st['invariants'], 'C06',
